@@ -123,9 +123,22 @@ def check(case, ctx):
     ctx.nontrivial = state["nz"] and "eps_output" in clf and "eps_input" in clg
 
     # ---- constructors
-    for x in [(), ("a",), ("a", "b")]:
+    extended = False
+    for x in [(), ("a",), ("a", "b"), "extend", ("a", "b")]:
+        if x == "extend":
+            x, extended = ("a", "b"), True
         t = ctx.call("from_string", FST.from_string, x, M.lib)
         if isinstance(t, LibRaised):
+            continue
+        if extended:
+            extended = False
+            # what a constructor returns belongs to the caller: extending it must not change what the
+            # next from_string / the next evaluation on the same string sees (second round of the loop)
+            qs = sorted(t.states, key=repr)
+            ctx.call("from_string.extend", t.add_arc, qs[-1], ("b", "b"), qs[-1], M.lib.one)
+            ctx.call("from_string.extend", t.add_F, qs[0], M.lib.one)
+            want_ab = autoref.rel(f, x, x)
+            ctx.eq("call_after_extend", M, ctx.call("call_after_extend", F, x, x), want_ab, what=f"f({x},{x}) after a caller extended its own from_string({x})")
             continue
         tt = ctx.call("from_string.read", RT.from_lib, M, t)
         if isinstance(tt, LibRaised):
